@@ -74,7 +74,8 @@ def disc(ctx, fams, flavours):
             'vii': 'edges come live from the node iterator of the taken node',
         }
         # (i)
-        bad = [s for s in ('CONTAINS', 'INSERT', 'RECORD', 'ADVANCE') if s in S and not _edge_dom(K, K.exec_true, S[s])]
+        # (the relative order of EXEC and the visited *test* is EXEC1's business: it matters to callbacks only)
+        bad = [s for s in ('INSERT', 'RECORD', 'ADVANCE') if s in S and not _edge_dom(K, K.exec_true, S[s])]
         bad += ['FOUND@bb%d' % bi for bi, k, t in direct_founds if not _edge_dom(K, K.exec_true, bi)]
         O('i', not bad, 'not dominated by EXEC-true: ' + ', '.join(bad) if bad else 'EXEC-true edge bb%d->bb%d dominates all' % K.exec_true, 'EXEC')
         # (ii)
@@ -88,6 +89,9 @@ def disc(ctx, fams, flavours):
             why.append('INSERT does not dominate ADVANCE')
         # every discovery is marked before the next edge is examined or the function returns without FOUND
         nv_t = K.notvis[1]
+        # a discovery = the edge was accepted AND its far endpoint is unvisited; the region starts behind whichever test comes second
+        if K.exec_true and cfg.edge_dominates(K.notvis[0], K.notvis[1], S['EXEC']):
+            nv_t = K.exec_true[1]
         # with `if visited.insert(k)` the test itself marks; the discovery region starts behind its true edge
         start = nv_t if K.insert_is_test else S['INSERT']
         if not K.insert_is_test and nv_t != S['INSERT'] and _avoid_path(K, nv_t, S['NEXT'], {S['INSERT']}):
@@ -114,7 +118,7 @@ def disc(ctx, fams, flavours):
             if not cfg.dominates(S['INSERT'], S['RECORD']) and not cfg.dominates(S['CONTAINS'], S['RECORD']):
                 ok = False
                 why.append('RECORD not dominated by the visited test')
-            start = K.notvis[1] if K.insert_is_test else S['INSERT']
+            start = nv_t if K.insert_is_test else S['INSERT']
             if _avoid_path(K, start, S['NEXT'], {S['RECORD']}) and start != S['RECORD']:
                 # found paths leave the loop; only paths that continue iterating matter
                 ok = False
@@ -158,8 +162,33 @@ def disc(ctx, fams, flavours):
             why.append('recorded %s, not EDGE' % pretty(K.record_term))
         O('vi', not why, '; '.join(why) if why else 'FAR=%s' % pretty(K.FAR), 'CONTAINS')
         # (vii)
-        ok = K.iter_on_taken and K.n_next == 1
-        O('vii', ok, 'iterator %s constructed on %s' % (K.iter_ctor, 'the taken node' if K.iter_on_taken else 'something else'), 'ITER')
+        ok = K.iter_on_taken and K.n_next == 1 and not K.buffered
+        O('vii', ok, 'iterator %s constructed on %s%s' % (K.iter_ctor, 'the taken node' if K.iter_on_taken else 'something else',
+                                                         '; but the edges are walked from a collected snapshot, not live' if K.buffered else ''), 'ITER')
+        if not K.iter_on_taken:
+            O('vi', False, 'the expanded node is not the one taken from the frontier', 'ITER')
+    return out
+
+
+def term(ctx, fams, flavours):
+    """TERM: a node enters the frontier only when it has just been marked visited (bounds expansions by the number of distinct keys)"""
+    F = ctx.F
+    out = []
+    for K in _sel(ctx, fams, flavours):
+        if K.missing:
+            out.append(Obl('TERM', K.q, _w(F, K), 'roles', False, 'roles missing: ' + ', '.join(K.missing)))
+            continue
+        S, cfg = K.sites, K.cfg
+        why = []
+        if not _edge_dom(K, K.notvis, S['ADVANCE']):
+            why.append('frontier add is not confined to the not-visited branch')
+        if not (cfg.dominates(S['INSERT'], S['ADVANCE'])):
+            why.append('frontier add is not preceded by marking the node visited')
+        if strip_payload(K.insert_key) != key_of(K.advance_term):
+            why.append('marks %s but queues %s' % (pretty(K.insert_key), pretty(K.advance_term)))
+        if strip_payload(K.contains_key) != strip_payload(K.insert_key):
+            why.append('tests %s but marks %s' % (pretty(K.contains_key), pretty(K.insert_key)))
+        out.append(Obl('TERM', K.q, _w(F, K, 'ADVANCE'), 'only newly marked nodes enter the frontier', not why, '; '.join(why) if why else 'ok'))
     return out
 
 
